@@ -28,7 +28,7 @@ def compositions(draw, total, parts):
 
 
 @st.composite
-def logprob_matrix(draw, min_T=1, max_T=8, min_C=2, max_C=6, families=None, big_alphabet=False):
+def logprob_matrix(draw, min_T=1, max_T=8, min_C=2, max_C=6, families=None, big_alphabet=False, long_lines=False):
     """(family, T x C float64 matrix of row-normalised log-probabilities, blank last)."""
     fam = draw(st.sampled_from(families or ["gauss", "peaky", "grid", "lowrows", "script"]))
     T = draw(st.integers(min_T, max_T))
@@ -37,6 +37,22 @@ def logprob_matrix(draw, min_T=1, max_T=8, min_C=2, max_C=6, families=None, big_
         C = draw(st.integers(11, 14))       # more than ten symbols (two-digit indices)
         T = min(T, 3)
     blank = C - 1
+    if long_lines and draw(st.integers(0, 7)) == 0:
+        # a line of realistic length: a drawn path with runs and blanks, peaky rows with occasional competitors
+        T = draw(st.integers(40, 160))
+        C = draw(st.integers(3, 9))
+        blank = C - 1
+        seed = draw(st.integers(0, 2 ** 31 - 1))
+        rs = np.random.RandomState(seed)
+        rows = rs.uniform(-9, -5, size=(T, C))
+        c = blank
+        for t in range(T):
+            if rs.uniform() < 0.45:
+                c = int(rs.randint(0, C))
+            rows[t, c] = rs.uniform(0, 3)
+            if rs.uniform() < 0.15:
+                rows[t, int(rs.randint(0, C))] = rs.uniform(-2, 1)
+        return "long", _log_softmax(rows)
     if fam == "gauss":
         temp = draw(st.sampled_from([0.5, 1.0, 3.0, 8.0]))
         rows = [[draw(st.floats(-4, 4, allow_nan=False, width=32)) * temp for _ in range(C)] for _ in range(T)]
